@@ -51,6 +51,20 @@ CHECKS = {
         "Bitwise equality relies on an exactly rounded (+,* only) test likelihood. Pools are in-process fakes except for the real-pool sub-grid.",
         "4/C10",
     ),
+    "C11": (
+        "fault_enumeration",
+        "every crash point (incl. byte prefixes of files under construction) of the recorded file-operation log of real checkpoints and weights saves",
+        "For 9-11 histories (checkpoint #1/#2/#3 and weights save #1/#2/#3 of real standard and INS runs, with and without keeping the previous checkpoint) the file operations performed by the real code are recorded; every crash point - before each operation, after the last, and every byte prefix on a lattice while a file is open - is materialised as an on-disk image and FlowSampler(resume=True) is run on it: it must succeed, the loaded sampler state must equal the previous or the new checkpoint, the loaded weights the previous or the new file (never torn, never silently random), and one image per distinct loaded class is continued to completion under the C01/C03 monitors and the C05 oracle.",
+        "Process-kill semantics (no power loss). torch.save's internal writes are modelled as byte prefixes of the completed file. Resume never reads the .temp file (asserted), which justifies the prefix lattice for it.",
+        "4/C11",
+    ),
+    "C12": (
+        "fault_enumeration",
+        "digest comparison at every checkpoint of a configuration lattice and a kill at every likelihood call (plus kill pairs) of short runs",
+        "(a) At every checkpoint of 17 (quick) / 34 (thorough) real runs (iteration- and time-triggered, checkpoint_on_training, rejection and flow phases, populated and empty pools, masks as list and ndarray, clustering, uniform_nball, inversion, INS variants with and without saved log_q) the live sampler is digested (iteration, live and nested points, integral state, insertion indices, history, pools, training counters, reparameterisation state, acceptance bookkeeping, weights, evaluation counter), the file just written is resumed into a second object with a fresh model and the digests are compared field by field (INS log_q bitwise when saved, float32 otherwise). (b) A short run of each sampler is killed at every likelihood call and at kill pairs on a lattice, resumed and completed; the C01/C03 monitors and the C05 oracle must hold and the evaluation counter must equal the checkpointed count plus the evaluations after the resume, at every checkpoint of every leg and at the end.",
+        "Kills are BaseExceptions raised from the user's likelihood. AugmentedFlowProposal excluded (known finding C09/C20).",
+        "4/C12",
+    ),
     "C15": (
         "model_checking",
         "exhaustive trajectory words on a scripted proposal and exhaustive criteria x tolerance lattices, each prediction replayed as a real run",
@@ -90,7 +104,8 @@ NOT_APPLICABLE = [
 
 ENGINES = [
     {"name": "E1/E2 explorer", "path": "mc/explore.py", "serves_properties": ["C01", "C04", "C18"], "kind_free_text": "level-synchronous explicit-state BFS over real transition functions (history replay, canonical hashing, lock-step reference model); deviation-bounded choice-tree DFS"},
-    {"name": "real-run driver and monitors", "path": "mc/runs.py", "serves_properties": ["C01", "C03", "C05", "C15"], "kind_free_text": "tiny configurations of both samplers, kill-at-checkpoint resume histories, invariant monitors (mc/monitors.py), independent result oracles"},
+    {"name": "real-run driver and monitors", "path": "mc/runs.py", "serves_properties": ["C01", "C03", "C05", "C11", "C12", "C15"], "kind_free_text": "tiny configurations of both samplers, kill-at-checkpoint resume histories, invariant monitors (mc/monitors.py), independent result oracles"},
+    {"name": "E3 fault-enumerating file system", "path": "mc/faultfs.py", "serves_properties": ["C11"], "kind_free_text": "records exists/move/open/write/close/torch.save of the real code and enumerates every crash image incl. byte prefixes"},
     {"name": "runner", "path": "mc/core.py", "serves_properties": [], "kind_free_text": "context, 16-process fork pool, evidence writer with schema validation, known-finding matcher, replay files"},
 ]
 
